@@ -259,6 +259,10 @@ PATH_TEXTS = ["m", "", "m/", "/", "m/0/", "0/1", "m/0h/1H/2'", "m//0", "M/0", "m
               "m/-1h", "m/2147483647h", "m/0h'", "m/h", "m/'", "m/44h/0h/0h/0/5", "44'/1'/0'", "m/007", "m/\t5\n",
               "m/- 1", "m/1/", "m/1//2", "m/99999999999999999999", "m/0/m", "m/0H/", "//", "m/ /1", "m/1.0", "m/1e3",
               "m/48h/0h/0h/2h", "m/-0", "m/+0h", "m/0_0h"]
+# second audit B-6: int() strips exactly 9..13 and 32, NOT 0x1c..0x1f (which str.strip() would strip) — each of them and
+# the characters int() does strip, before / after the digits and before the hardened marker
+PATH_TEXTS += [t % ch for ch in "\x1c\x1d\x1e\x1f\x0b\x0c\r" for t in ("m/0%s", "m/%s1h/2", "m/1%sh", "m/5/%s7%s")[:3]]
+PATH_TEXTS += ["m/5/%s7%s" % (ch, ch) for ch in "\x1c\x1f\x0b "]
 
 
 def path_text_case(c, text, s=None):
